@@ -417,6 +417,10 @@ func (op *redirOp) exec(fm *Frame, fops *[]formOwnedPort) Exception {
 		}
 	}
 
+	if dst < 0 {
+		return fm.errorp(op, InvalidFD{FD: dst})
+	}
+
 	dstPort := growAccess(&fm.ports, dst)
 	dstFop := growAccess(fops, dst)
 	if *dstPort != nil {
@@ -435,7 +439,7 @@ func (op *redirOp) exec(fm *Frame, fops *[]formOwnedPort) Exception {
 			*dstPort = &Port{
 				// Ensure that writing to value output throws an exception
 				sendStop: closedSendStop, sendError: &ErrPortDoesNotSupportValueOutput}
-		case src >= len(fm.ports) || fm.ports[src] == nil:
+		case src < 0 || src >= len(fm.ports) || fm.ports[src] == nil:
 			return fm.errorp(op, InvalidFD{FD: src})
 		default:
 			*dstPort = fm.ports[src]
